@@ -50,6 +50,13 @@ def validate_rank_params(gp_type, n_samples, rank, n_landmarks):
     n_landmarks : int
         Number of landmarks used in the approximation process.
     """
+    if rank is not None and rank < 0:
+        message = (
+            f"The rank must not be negative but is {rank}. Use a fractional 0 < rank < 1 "
+            "or an integer 0 < rank < n to request a Nyström rank reduction."
+        )
+        logger.error(message)
+        raise ValueError(message)
     if (
         type(rank) is int
         and (
